@@ -264,7 +264,12 @@ func c05IcbCheck(res *vh.Result, cfg *icCfg) func(r *icRun, x *vrt.Sched, cost i
 		})
 		deleted := map[int]bool{}
 		ttlOf := map[int]bool{}
+		ttlNs := map[int]int64{} // value -> TTL of the Set that wrote it
+		var elapsed int64        // upper bound of the virtual time that passes in this driver
 		for _, c := range r.calls {
+			if c.Op.Kind == "tick" || c.Op.Kind == "adv" {
+				elapsed += c.Op.Arg
+			}
 			if c.Op.Kind == "del" {
 				deleted[c.Op.K] = true
 			}
@@ -272,6 +277,7 @@ func c05IcbCheck(res *vh.Result, cfg *icCfg) func(r *icRun, x *vrt.Sched, cost i
 				continue
 			}
 			ttlOf[c.V] = c.Op.TTL != 0
+			ttlNs[c.V] = c.Op.TTL
 			if p := r.pre[c.Op.K]; p != nil && c.Client == -1 {
 				if p.value != c.V {
 					superseded[[2]int{c.Op.K, c.V}] = true // the pre-history value was overwritten in place later
@@ -323,6 +329,8 @@ func c05IcbCheck(res *vh.Result, cfg *icCfg) func(r *icRun, x *vrt.Sched, cost i
 			case EXPIRED:
 				if !i.ttl && !ttlOf[n.V] {
 					viol("wrong-reason", "EXPIRED-without-deadline", fmt.Sprintf("(%d,%d) reported EXPIRED but has no deadline", n.K, n.V))
+				} else if ttlNs[n.V] > elapsed {
+					viol("wrong-reason", "EXPIRED-before-deadline", fmt.Sprintf("(%d,%d) reported EXPIRED: the Set that wrote it gave it %d s to live, at most %d s pass in this run", n.K, n.V, ttlNs[n.V]/sec, elapsed/sec))
 				}
 			}
 		}
@@ -362,6 +370,8 @@ func c05IcbDrivers() []*icCfg {
 		{Name: "del-vs-expire", O: m1, Scripts: [][]icOp{{T(1, sec), D(1)}, {S(2)}, {tick}}},
 		{Name: "update-vs-evict", O: m1, Pre: []icOp{S(1)}, Scripts: [][]icOp{{S(1)}, {S(2)}, {S(4)}}},
 		{Name: "update-vs-expire", O: hOpts{MaxSize: 3, ChanSize: 2, BufSize: 2}, Pre: []icOp{T(1, sec)}, Scripts: [][]icOp{{S(1)}, {tick}, {S(2)}}},
+		// a TTL extension racing the reclamation of the old deadline: the extended value must not be reported at all
+		{Name: "extend-vs-expire", O: hOpts{MaxSize: 3, ChanSize: 2, BufSize: 2}, Pre: []icOp{T(1, sec), {Kind: "wait"}}, Scripts: [][]icOp{{T(1, 90*sec)}, {tick}}},
 		{Name: "del-vs-evict-pool", O: m1p, Fresh: true, Scripts: [][]icOp{{S(1), D(1)}, {S(2)}, {S(4)}}},
 	}
 }
